@@ -168,6 +168,9 @@ type Action struct {
 	// ChainImports: import paths referenced only at the ROOT of a longer selector chain (`var _ = pkg.V.Field.Sub`,
 	// `pkg.F().M()`), never as a plain pkg.Name
 	ChainImports []string `json:"chain_imports,omitempty"`
+	// SharedExpose: render a reference through ONE package-level PkgExpose snippet value that every generator,
+	// package and run of this process shares (`var errorsNew = snippet.PkgExpose("errors", "New")` style)
+	SharedExpose bool `json:"shared_pkg_expose_value,omitempty"`
 	// DocOfFieldTypes: ask Context.Doc about the named type of every field of the struct (whatever package
 	// it lives in, the way runtimedoc / partialstruct style generators do) and render what was answered
 	DocOfFieldTypes bool `json:"doc_of_field_types,omitempty"`
@@ -248,6 +251,9 @@ func (in *inst) perform(c gengo.Context, gen string, a Action, typ string) error
 	}
 	for i, imp := range a.Imports {
 		c.RenderT("var _"+fmt.Sprint(i)+"_"+typ+"_"+gen+" @x\n", snippet.Arg("x", snippet.PkgExpose(subst(imp, strings.ToLower(typ), gen, pkgName), "X")))
+	}
+	if a.SharedExpose {
+		c.RenderT("var _s_"+typ+"_"+gen+" @x\nvar _t_"+typ+"_"+gen+" @y\n", snippet.Arg("x", sharedExposeLib), snippet.Arg("y", sharedExposeLocal))
 	}
 	for i, imp := range a.ChainImports {
 		c.RenderT("var _c"+fmt.Sprint(i)+"_"+typ+"_"+gen+" = @x.Field.Sub\n\nfunc _f"+fmt.Sprint(i)+"_"+typ+"_"+gen+"() { _ = @y().Method().Name }\n",
@@ -420,6 +426,13 @@ func (in *inst) alias(gen string, c gengo.Context, al *types.Alias) error {
 	}
 	return in.perform(c, gen, *s.Alias, typ)
 }
+
+// shared snippet VALUES (never rebuilt): a reference to a foreign package, and one to the package x.io/test/p
+// (which is the generated package itself in one place and a foreign one everywhere else)
+var (
+	sharedExposeLib   = snippet.PkgExpose("x.io/shared/lib", "Name")
+	sharedExposeLocal = snippet.PkgExpose("x.io/test/p", "Z")
+)
 
 // Twins holds types that share package name and type name across two packages.
 type Twins struct {
